@@ -297,6 +297,17 @@ func runC11(c c11Case) *vlib.Outcome {
 			if x.K == "addFact" || x.K == "addRule" || x.K == "addLibRule" {
 				writes++
 			}
+			// Whatever an event or search of this client returns was
+			// written by this client (its tags start with "c<ci>."): also
+			// in the solo run, which shares the process - and whatever the
+			// process keeps globally - with everything that ran before.
+			if x.K == "event" || x.K == "search" {
+				if bad := c11ForeignTag(want[ci][j], ci); bad != "" {
+					o.Fail("INTERFERENCE", "client %d alone on a fresh engine (location %s, http=%v, linear=%v): request %d %+v returned %q, which carries %q - not something this client wrote",
+						ci, loc, c.HTTP, c.Linear, j, x, want[ci][j], bad)
+					return o
+				}
+			}
 		}
 		wantStore[ci] = c11Store(e, loc)
 	}
@@ -370,6 +381,25 @@ func runC11(c c11Case) *vlib.Outcome {
 		}
 	}
 	return o
+}
+
+// c11ForeignTag returns a tag in an event / search result that was not
+// written by client ci ("" if there is none).
+func c11ForeignTag(res string, ci int) string {
+	if res == "" || strings.HasPrefix(res, "http ") || strings.HasPrefix(res, "error") || res == "notfound" {
+		return ""
+	}
+	own := fmt.Sprintf("c%d.", ci)
+	for _, part := range strings.Split(res, ",") {
+		v := part
+		if i := strings.Index(part, "="); i >= 0 {
+			v = part[i+1:]
+		}
+		if v != "" && !strings.HasPrefix(v, own) {
+			return v
+		}
+	}
+	return ""
 }
 
 // c11Store returns the stored records of a location (ids -> v / "rule").
